@@ -348,7 +348,9 @@ def small(a):
 MIXES = {'c04': (0.50, 0.75, 0.83, 0.88, 0.93),
          'c05': (0.75, 0.85, 0.88, 0.91, 0.98),
          'c12': (0.45, 0.62, 0.90, 0.94, 0.97),
-         'c13': (0.40, 0.60, 0.65, 0.68, 0.72)}
+         'c13': (0.40, 0.60, 0.65, 0.68, 0.72),
+         'c03': (0.84, 0.92, 0.93, 0.95, 1.00)}      # references: evaluations by fresh evaluators, a few sets, no extraction
+MIX_INDEX = {'c04': 0, 'c05': 1, 'c12': 2, 'c13': 3, 'c03': 4}      # (fixed: a new mix must not shift the seeds of the others)
 
 
 def drive(seed, work, mix='c04'):
@@ -508,7 +510,7 @@ def run_driver(run, count, name='wbdrive', mix='c04'):
     """drive `count` random workbooks; TLC judges every evaluation; returns Counter of verdicts"""
     import collections
     from harness import pool, trace
-    base = run.seed * 100003 + 17 + 1000000 * sorted(MIXES).index(mix)
+    base = run.seed * 100003 + 17 + 1000000 * MIX_INDEX[mix]
     seeds = [base + i for i in range(count)]
     events = []
     for part in pool.pmap(Worker(run.work, mix), seeds, nchunks=64):
